@@ -285,6 +285,45 @@ def program_side(seed, q, res):
         program_part(seed, q, res, part)
 
 
+def make_program(spec, part):
+    from .. import dsl
+    import ebpfcat.arraymap as am
+    import ebpfcat.hashmap as hm
+    reg = dsl.new_registry()
+    Prog, Key, Value = build(dsl.ebpf, am, hm, spec, True)
+    nk, nv = len(spec["key"]), len(spec["value"])
+    e = Prog(dsl.ProgType.XDP, "GPL")
+    for i, hv in enumerate(spec["hashvars"]):
+        if part != "hash":
+            break
+        if hv["role"] == "R":
+            setattr(e, f"xh{i}", getattr(e, f"h{i}"))
+        else:
+            setattr(e, f"h{i}", getattr(e, f"xh{i}"))
+    if part == "dict":
+        # insert (ka -> key, va -> value)
+        for i in range(nk):
+            setattr(e.table.key, f"k{i}", getattr(e, f"ka{i}"))
+        for i in range(nv):
+            setattr(e.table.value, f"v{i}", getattr(e, f"va{i}"))
+        e.table.update()
+        e.upd = e.r0
+        # look up kb
+        for i in range(nk):
+            setattr(e.table.key, f"k{i}", getattr(e, f"kb{i}"))
+        with e.table.lookup() as (value, Else):
+            for i in range(nv):
+                setattr(e, f"out{i}", getattr(value, f"v{i}"))
+            if spec["modify"]:
+                value.v0 = e.vmod
+        with Else:
+            e.miss = 1
+    e.r0 = 0
+    e.exit()
+    code = e.assemble()
+    return e, code, list(reg.maps)
+
+
 def program_part(seed, q, res, part):
     from .. import dsl
     from ..bpfsym import Env, FP, bv, decode, load, merge, run
@@ -292,39 +331,9 @@ def program_part(seed, q, res, part):
     import ebpfcat.hashmap as hm
     spec = gen_spec(seed)
     name = f"program seed {seed} (program side, {part} part)"
-    reg = dsl.new_registry()
-    Prog, Key, Value = build(dsl.ebpf, am, hm, spec, True)
     nk, nv = len(spec["key"]), len(spec["value"])
     try:
-        e = Prog(dsl.ProgType.XDP, "GPL")
-        for i, hv in enumerate(spec["hashvars"]):
-            if part != "hash":
-                break
-            if hv["role"] == "R":
-                setattr(e, f"xh{i}", getattr(e, f"h{i}"))
-            else:
-                setattr(e, f"h{i}", getattr(e, f"xh{i}"))
-        if part == "dict":
-            # insert (ka -> key, va -> value)
-            for i in range(nk):
-                setattr(e.table.key, f"k{i}", getattr(e, f"ka{i}"))
-            for i in range(nv):
-                setattr(e.table.value, f"v{i}", getattr(e, f"va{i}"))
-            e.table.update()
-            e.upd = e.r0
-            # look up kb
-            for i in range(nk):
-                setattr(e.table.key, f"k{i}", getattr(e, f"kb{i}"))
-            with e.table.lookup() as (value, Else):
-                for i in range(nv):
-                    setattr(e, f"out{i}", getattr(value, f"v{i}"))
-                if spec["modify"]:
-                    value.v0 = e.vmod
-            with Else:
-                e.miss = 1
-        e.r0 = 0
-        e.exit()
-        code = e.assemble()
+        e, code, maps = make_program(spec, part)
     except Exception as ex:
         res["obligations"] += 1
         res["violations"].append(dict(
@@ -333,7 +342,6 @@ def program_part(seed, q, res, part):
                  f"{type(ex).__name__}: {ex}", witness=dict(spec=spec),
             replay=dict(seed=seed)))
         return
-    maps = list(reg.maps)
     res["programs"] += 1
     hmapi = [m for m in maps if m.kind == "hash" and m.key_size == 1]
     dmap = [m for m in maps if m.kind == "hash" and m.key_size != 1]
